@@ -220,8 +220,11 @@ class FetchCommand(CommandSelect):
             pass
         if not attr_list:
             params_copy = params.copy(expected=[FetchAttribute])
-            attr_list_p, buf = List.parse(buf, params_copy)
+            attr_list_p, after = List.parse(buf, params_copy)
             attr_list = attr_list_p.get_as(FetchAttribute)
+            if not attr_list:
+                raise NotParseable(buf)
+            buf = after
         if params.uid:
             attr_list = list(attr_list) + [FetchAttribute(b'UID')]
         options, buf = ExtensionOptions.parse(buf, params)
